@@ -7,6 +7,8 @@ import (
 	"strings"
 
 	"github.com/freeconf/yang/node"
+	"github.com/freeconf/yang/nodeutil"
+	"github.com/freeconf/yang/val"
 
 	"verif/core"
 	"verif/dp"
@@ -94,6 +96,23 @@ func addRepeatedKeys(r *rand.Rand, s *dp.Schema, d *dp.DNode, do dp.DataOpts) in
 		n += addRepeatedKeys(r, s, k, do)
 	}
 	return n
+}
+
+// keyStrings renders a key as the library reports it in the model's canonical form
+func keyStrings(l *dp.SNode, key []val.Value) []string {
+	out := make([]string, len(key))
+	for i, k := range key {
+		if k == nil {
+			out[i] = "\x00unset"
+			continue
+		}
+		if lv, bad := dp.FromVal(l.Child(l.Keys[i]).Type, false, k); bad == "" && lv != nil {
+			out[i] = lv.V[0]
+		} else {
+			out[i] = k.String()
+		}
+	}
+	return out
 }
 
 func dupKeys(d *dp.DNode, path string, out *[]string) {
@@ -259,6 +278,81 @@ func (p c18) Run(c *core.Ctx, idx int) {
 			if run(func(sel *node.Selection) error { return sel.ReplaceFrom(src) }) {
 				return
 			}
+		case kind == "list" && (opk == 5 || opk == 6) && len(ml.Entries) >= 3:
+			// several entries deleted one after the other through selections obtained from ONE list selection (First/Next), then the
+			// list read again through that same selection: whatever the list node caches about rows and keys has to follow
+			n := len(ml.Entries)
+			var victims []int
+			for i := 0; i < n; i++ {
+				if r.Intn(2) == 0 {
+					victims = append(victims, i)
+				}
+			}
+			if len(victims) < 2 {
+				victims = []int{0, n - 2}
+			}
+			if len(victims) == n {
+				victims = victims[:n-1]
+			}
+			var vkeys [][]string
+			for _, v := range victims {
+				vkeys = append(vkeys, ml.Entries[v].Key())
+			}
+			desc = fmt.Sprintf("Delete entries %v of list %q through one list selection", vkeys, pth.String())
+			var survivors []string
+			isVictim := map[string]bool{}
+			for _, k := range vkeys {
+				isVictim[strings.Join(k, "\x00")] = true
+			}
+			var keep []*dp.DNode
+			for _, e := range ml.Entries {
+				if !isVictim[strings.Join(e.Key(), "\x00")] {
+					keep = append(keep, e)
+					survivors = append(survivors, strings.Join(e.Key(), ","))
+				}
+			}
+			ml.Entries = keep
+			var seenAfter []string
+			if run(func(sel *node.Selection) error {
+				var items []*node.Selection
+				it, err := sel.First()
+				for ; err == nil && it.Selection != nil; it, err = it.Next() {
+					if fk := keyStrings(ml.S, it.Key); isVictim[strings.Join(fk, "\x00")] {
+						items = append(items, it.Selection)
+					}
+				}
+				if err != nil {
+					return err
+				}
+				for _, is := range items {
+					if err := is.Delete(); err != nil {
+						return err
+					}
+				}
+				// read through the held list selection
+				it, err = sel.First()
+				for ; err == nil && it.Selection != nil; it, err = it.Next() {
+					seenAfter = append(seenAfter, strings.Join(keyStrings(ml.S, it.Key), ","))
+				}
+				return err
+			}) {
+				return
+			}
+			if err == nil && !cmp.IgnoreListOrder && strings.Join(seenAfter, ";") != strings.Join(survivors, ";") {
+				c.Violate("held-selection/stale-rows"+storeSig(storeName), "%s: iterating the same list selection afterwards gives %v, the remaining entries are %v", desc, seenAfter, survivors)
+				return
+			}
+			if err == nil && cmp.IgnoreListOrder {
+				a, b := append([]string{}, seenAfter...), append([]string{}, survivors...)
+				sort.Strings(a)
+				sort.Strings(b)
+				if strings.Join(a, ";") != strings.Join(b, ";") {
+					c.Violate("held-selection/stale-rows"+storeSig(storeName), "%s: iterating the same list selection afterwards gives %v, the remaining entries are %v", desc, seenAfter, survivors)
+					return
+				}
+			}
+			removed = nil
+			kind, pos = "list", "multi-delete"
 		case opk == 8 && kind == "container":
 			// delete a container and bring it back with one upsert whose lists name a key twice: the list is created by the very edit
 			// that has to find the first occurrence again (entries are matched by key)
@@ -315,14 +409,32 @@ func (p c18) Run(c *core.Ctx, idx int) {
 			if dup, _ := lst.Find(entry.Key()); dup == nil && r.Intn(2) == 0 {
 				strat = dp.Insert
 			}
-			desc = fmt.Sprintf("%sFrom entry %q into list %q", strat, entry.Key(), lpath.String())
-			holder := dp.NewDNode(nil)
+			// sometimes the entry arrives as an XML document and its (string) key carries surrounding white space
+			viaXML := r.Intn(3) == 0
+			if k0 := lst.S.Child(lst.S.Keys[0]); viaXML && k0.Type.Base == "string" && k0.Type.Wrap != "leafref" && entry != lastDeleted {
+				entry = entry.Clone()
+				entry.Leaves[k0.Name] = &dp.LVal{V: []string{" " + entry.Leaves[k0.Name].V[0] + " "}}
+				if dup, _ := lst.Find(entry.Key()); dup != nil {
+					strat = dp.Upsert
+				}
+			}
+			desc = fmt.Sprintf("%sFrom entry %q into list %q (xml=%v)", strat, entry.Key(), lpath.String(), viaXML)
+			holder := dp.NewDNode(lst.S.DataParent())
 			holder.Lists[lst.S.Name] = &dp.DList{S: lst.S, Entries: []*dp.DNode{entry}}
 			if e := dp.ApplyList(s, strat, holder.Lists[lst.S.Name], lst); e != dp.OK {
 				c.Violate("harness/model-insert", "model %s failed: %v", strat, e)
 				return
 			}
 			src := dp.NewStore(s, nil).ListAt(holder, lst.S.Name)
+			if viaXML {
+				doc := dp.EncodeXML(s, "holder", holder, nil)
+				xn, xerr := nodeutil.ReadXMLDoc(strings.NewReader(doc))
+				if xerr != nil {
+					c.Violate("harness/xml-source", "ReadXMLDoc of the reference encoding failed: %v\n%s", xerr, doc)
+					return
+				}
+				src = xn
+			}
 			if run(func(sel *node.Selection) error {
 				if strat == dp.Insert {
 					return sel.InsertFrom(src)
